@@ -10,12 +10,43 @@ use qvnt::prelude::*;
 
 use crate::ops::{self, Built, GenCfg};
 use crate::rng::Rng;
-use crate::trace::{cvec, Trace, C};
+use crate::trace::{cvec, fvec, nvec, Trace, C};
+use rand::Rng as _;
 
 #[derive(Default)]
 pub struct St {
     pub op: Option<MultiOp>,
     pub q: Option<QReg>,
+    pub q2: Option<QReg>,
+    pub c: Option<CReg>,
+    pub v: Option<VReg>,
+}
+
+fn qobs(q: &QReg) -> String {
+    format!("{} {} {}", q.num(), q.verif_q_mask(), cvec(q.verif_psi()))
+}
+
+fn cobs(c: &CReg) -> String {
+    format!("{} {} {}", c.get(), c.num(), c.verif_q_mask())
+}
+
+fn vobs(v: &VReg) -> String {
+    // `v[..]` is the union, v[i] the single bits
+    let all = v[..];
+    let mut bits = Vec::new();
+    let mut i = 0;
+    loop {
+        let r = catch_unwind(AssertUnwindSafe(|| v[i]));
+        match r {
+            Ok(b) => bits.push(b),
+            Err(_) => break,
+        }
+        i += 1;
+        if i > 70 {
+            break;
+        }
+    }
+    format!("{} {}", all, nvec(&bits))
 }
 
 fn parse_cvec(toks: &[&str]) -> Option<Vec<C>> {
@@ -92,6 +123,190 @@ fn exec_inner(st: &mut St, cmd: &str) -> String {
             }
             cvec(q.verif_psi())
         }
+        "q2reg" => {
+            let n: usize = toks[1].parse().unwrap();
+            let thr: usize = toks[2].parse().unwrap();
+            st.q2 = QReg::new(n).num_threads(thr);
+            if st.q2.is_some() { "ok".into() } else { "none".into() }
+        }
+        "q2state" => {
+            let n: usize = toks[1].parse().unwrap();
+            let s: usize = toks[2].parse().unwrap();
+            let thr: usize = toks[3].parse().unwrap();
+            st.q2 = QReg::with_state(n, s).num_threads(thr);
+            if st.q2.is_some() { "ok".into() } else { "none".into() }
+        }
+        "set2psi" => {
+            let v = parse_cvec(&toks[1..]).expect("bad set2psi");
+            st.q2.as_mut().expect("no q2").verif_set_psi(v);
+            String::new()
+        }
+        "tensor" => {
+            let a = st.q.take().expect("no qreg");
+            let b = st.q2.take().expect("no q2");
+            let r = if toks.get(1) == Some(&"assign") {
+                let mut a = a;
+                a *= b;
+                a
+            } else {
+                a * b
+            };
+            let o = qobs(&r);
+            st.q = Some(r);
+            o
+        }
+        "qobs" => qobs(st.q.as_ref().expect("no qreg")),
+        "setnum" => {
+            let n: usize = toks[1].parse().unwrap();
+            let q = st.q.as_mut().expect("no qreg");
+            q.set_num(n);
+            qobs(q)
+        }
+        "setnumnr" => {
+            let n: usize = toks[1].parse().unwrap();
+            let q = st.q.as_mut().expect("no qreg");
+            q.verif_set_num_no_realloc(n);
+            qobs(q)
+        }
+        "probs" => fvec(&st.q.as_ref().expect("no qreg").get_probabilities()),
+        "absolute" => fvec(&[st.q.as_ref().expect("no qreg").get_absolute()]),
+        "polar" => {
+            let p = st.q.as_ref().expect("no qreg").get_polar();
+            let flat: Vec<f64> = p.iter().flat_map(|(r, t)| [*r, *t]).collect();
+            fvec(&flat)
+        }
+        "measure" => {
+            // `measure all` = QReg::measure(); `measure <mask>` = measure_mask
+            let q = st.q.as_mut().expect("no qreg");
+            let _ = qvnt::verif::take_measure_log();
+            if let Some(seed) = toks.get(2).and_then(|s| s.parse::<u64>().ok()) {
+                qvnt::verif::seed(Some(seed));
+            }
+            let c = if toks[1] == "all" { q.measure() } else { q.measure_mask(toks[1].parse().unwrap()) };
+            qvnt::verif::seed(None);
+            let log = qvnt::verif::take_measure_log();
+            let drawn = log.first().map(|x| x.1 as i64).unwrap_or(-1);
+            format!("{} {} {}", cobs(&c), drawn, cvec(q.verif_psi()))
+        }
+        "collapse" => {
+            let q = st.q.as_mut().expect("no qreg");
+            q.verif_collapse_mask(toks[1].parse().unwrap(), toks[2].parse().unwrap());
+            cvec(q.verif_psi())
+        }
+        "normalize" => {
+            let q = st.q.as_mut().expect("no qreg");
+            q.verif_normalize();
+            cvec(q.verif_psi())
+        }
+        "reset" => {
+            let q = st.q.as_mut().expect("no qreg");
+            q.verif_reset(toks[1].parse().unwrap());
+            cvec(q.verif_psi())
+        }
+        "resetmask" => {
+            let q = st.q.as_mut().expect("no qreg");
+            let _ = qvnt::verif::take_measure_log();
+            if let Some(seed) = toks.get(2).and_then(|s| s.parse::<u64>().ok()) {
+                qvnt::verif::seed(Some(seed));
+            }
+            q.verif_reset_by_mask(toks[1].parse().unwrap());
+            qvnt::verif::seed(None);
+            let log = qvnt::verif::take_measure_log();
+            let drawn = log.first().map(|x| x.1 as i64).unwrap_or(-1);
+            format!("{} {}", drawn, cvec(q.verif_psi()))
+        }
+        "sample" => {
+            let count: usize = toks[1].parse().unwrap();
+            let seed: u64 = toks[2].parse().unwrap();
+            let q = st.q.as_ref().expect("no qreg");
+            let cells = q.get_probabilities().len();
+            // the standard-normal draws sample_all will make (single-threaded model only)
+            let normals: Vec<f64> = if q.verif_threads() == 1 {
+                qvnt::verif::seed(Some(seed));
+                let mut rng = qvnt::verif::thread_rng();
+                (0..cells).map(|_| rng.sample::<f64, _>(rand_distr::StandardNormal)).collect()
+            } else {
+                Vec::new()
+            };
+            qvnt::verif::seed(Some(seed));
+            let h = q.sample_all(count);
+            qvnt::verif::seed(None);
+            format!("{} {}", fvec(&normals), nvec(&h))
+        }
+        "qvreg" => vobs(&st.q.as_ref().expect("no qreg").get_vreg()),
+        "qvregby" => match st.q.as_ref().expect("no qreg").get_vreg_by(toks[1].parse().unwrap()) {
+            Some(v) => format!("some {}", vobs(&v)),
+            None => "none".into(),
+        },
+        "creg" => {
+            let c = CReg::with_state(toks[1].parse().unwrap(), toks[2].parse().unwrap());
+            let o = cobs(&c);
+            st.c = Some(c);
+            o
+        }
+        "cnew" => {
+            let c = CReg::new(toks[1].parse().unwrap());
+            let o = cobs(&c);
+            st.c = Some(c);
+            o
+        }
+        "cset" | "cxor" | "creset" | "csetnum" | "ctensor" => {
+            let c = st.c.as_mut().expect("no creg");
+            match toks[0] {
+                "cset" => c.set(toks[1] == "1", toks[2].parse().unwrap()),
+                "cxor" => c.xor(toks[1] == "1", toks[2].parse().unwrap()),
+                "creset" => c.verif_reset(toks[1].parse().unwrap()),
+                "csetnum" => c.set_num(toks[1].parse().unwrap()),
+                _ => {
+                    let other = CReg::with_state(toks[1].parse().unwrap(), toks[2].parse().unwrap());
+                    let me = std::mem::take(c);
+                    *c = me * other;
+                }
+            }
+            cobs(c)
+        }
+        "cgetmask" => st.c.as_ref().expect("no creg").verif_get_by_mask(toks[1].parse().unwrap()).to_string(),
+        "cdebug" => format!("{:?}", st.c.as_ref().expect("no creg")),
+        "vreg" => {
+            let v = VReg::from(toks[1].parse::<usize>().unwrap());
+            let o = vobs(&v);
+            st.v = Some(v);
+            o
+        }
+        "vnew" => {
+            let v = VReg::new(toks[1].parse().unwrap());
+            let o = vobs(&v);
+            st.v = Some(v);
+            o
+        }
+        "vidx" => {
+            let v = st.v.as_ref().expect("no vreg");
+            let i: usize = toks[1].parse().unwrap();
+            v[i].to_string()
+        }
+        "vpred" => {
+            // predicate "position i is set in <bits>"
+            let v = st.v.as_ref().expect("no vreg");
+            let bits: u128 = toks[1].parse().unwrap();
+            v[move |i: usize| i < 128 && (bits >> i) & 1 == 1].to_string()
+        }
+        "vlist" => {
+            let v = st.v.as_ref().expect("no vreg");
+            let l: Vec<usize> = toks[1..].iter().map(|t| t.parse().unwrap()).collect();
+            match l.len() {
+                0 => v[[0usize; 0]].to_string(),
+                1 => v[[l[0]]].to_string(),
+                2 => v[[l[0], l[1]]].to_string(),
+                3 => v[[l[0], l[1], l[2]]].to_string(),
+                _ => v[[l[0], l[1], l[2], l[3]]].to_string(),
+            }
+        }
+        "bitsiter" => {
+            let m: usize = toks[1].parse().unwrap();
+            let v: Vec<usize> = qvnt::verif::BitsIter::from(m).collect();
+            nvec(&v)
+        }
+        "countbits" => qvnt::verif::count_bits(toks[1].parse().unwrap()).to_string(),
         "metactrl" => {
             // C02: E.c(m) on psi, and E on the projection of psi onto "all control bits set"
             let m: usize = toks[1].parse().unwrap();
